@@ -1113,6 +1113,9 @@ class World(object):
                 self.report("C10", "canceled_when_drained", "workflow still canceling after the last action reported")
             else:
                 self.report("C09", "paused_when_drained", "workflow still pausing after the last action reported")
+        if self.pause_req and st in ("running", "resuming", "requested", "scheduled", "delayed") and not self.cancel_req:
+            # an accepted pause stays in effect until the operator resumes (or the workflow ends)
+            self.report("C09", "pause_holds", "a pause request was accepted and not resumed, yet the workflow reports %s" % st)
         if self.cancel_req and st == "succeeded":
             self.report("C10", "never_succeeded", "canceled workflow ended succeeded")
         if self.fault_fired and self.fault_checked is False and tag in ("deliver", "dispatch", "start", "request", "dup"):
